@@ -5,6 +5,8 @@ package c16
 import (
 	"context"
 	"fmt"
+	"strings"
+	"sync"
 	"testing"
 
 	"k8s.io/apimachinery/pkg/apis/meta/v1/unstructured"
@@ -18,6 +20,85 @@ func fatal(t *testing.T) func(string, ...any) {
 	return func(f string, a ...any) { t.Helper(); t.Fatalf(f, a...) }
 }
 
+// ---------------------------------------------------------------------------
+// known finding C16/inactive-webhook-config-name
+//
+// establisher.go deploys a package's Validating/MutatingWebhookConfiguration as
+// crossplane-<kind>-<package> when the revision has a webhook CA
+// (enrichControlledResource, control=true only). A revision that does not
+// control (validate/establish with control=false) and ReleaseObjects (through
+// status.objectRefs recorded before the object was deployed) look the object up
+// under its static name from the package instead, do not find it, and report
+// success: deactivation does not give up control of the deployed webhook
+// configuration.
+
+const knownKey = "inactive-webhook-config-name"
+
+var knownOpen = sync.OnceValue(func() bool { return verifkit.OpenFinding("C16", knownKey) })
+
+func hasWebhookConfig(objs []objSpec) bool {
+	for _, o := range objs {
+		if o.Kind == "VWC" || o.Kind == "MWC" {
+			return true
+		}
+	}
+	return false
+}
+
+// excludeKnown steers a direct Establish scenario away from the open finding:
+// a non-controlling revision of a package that ships webhook configurations and
+// has a webhook CA (so that they are deployed under the package-derived name).
+// Without the CA the same objects live under their static names, which is kept.
+func excludeKnown(sc *scenario) bool {
+	if !knownOpen() || sc.Control || !flavours[sc.Flavour].Runtime || sc.Secret != "ok" || !hasWebhookConfig(sc.Objs) {
+		return false
+	}
+	sc.Secret = "none"
+	return true
+}
+
+// isKnownClass is the classifier of the pinned reproducers: the offending object
+// is a webhook configuration deployed under the package-derived name.
+func isKnownClass(msg string) bool {
+	head := msg
+	if i := strings.Index(head, "\nhistory:"); i >= 0 {
+		head = head[:i]
+	}
+	return strings.Contains(head, "WebhookConfiguration//crossplane-")
+}
+
+type aborted struct{ msg string }
+
+// try runs a reproducer row with a fail function that aborts the row and hands the message back.
+func try(body func(fail func(string, ...any))) (msg string, failed bool) {
+	defer func() {
+		if r := recover(); r != nil {
+			a, ok := r.(aborted)
+			if !ok {
+				panic(r)
+			}
+			msg, failed = a.msg, true
+		}
+	}()
+	body(func(f string, a ...any) { panic(aborted{fmt.Sprintf(f, a...)}) })
+	return "", false
+}
+
+// settle applies the known-finding protocol to the rows of one reproducer.
+func settle(t *testing.T, rec *verifkit.Recorder, what string, known int, first string, other []string) {
+	t.Helper()
+	if len(other) > 0 {
+		t.Fatalf("%d rows failed with something else than the known finding, first:\n%s", len(other), other[0])
+	}
+	switch {
+	case known == 0:
+	case knownOpen():
+		rec.KnownReproduced(fmt.Sprintf("key=%s %s (%d rows)", knownKey, what, known))
+	default:
+		t.Fatalf("%d rows failed, first:\n%s", known, first)
+	}
+}
+
 // TestVerifC16PinnedInactiveWebhookName is the smallest form of the defect the
 // histories found on the pinned tree: webhook configurations of a package with
 // a CA are deployed as crossplane-<kind>-<package>, but an inactive revision
@@ -27,22 +108,30 @@ func fatal(t *testing.T) func(string, ...any) {
 // comment in ReleaseObjects describes) stayed their controller for ever.
 func TestVerifC16PinnedInactiveWebhookName(t *testing.T) {
 	rec := verifkit.New(t, "C16", "pinned rows")
+	known, first, other := 0, "", []string(nil)
 	for fi, fl := range flavours {
 		if !fl.Runtime {
 			continue
 		}
 		for _, kinds := range [][]string{{"VWC"}, {"MWC"}, {"CRD", "VWC", "MWC"}} {
-			t.Run(fmt.Sprintf("%s/%v", fl.Kind, kinds), func(t *testing.T) {
-				rec.Eval()
-				sc := scenario{Flavour: fi, Control: false, Reject: -1, Secret: "ok", Limit: 1}
-				for _, k := range kinds {
-					sc.Objs = append(sc.Objs, objSpec{Kind: k, Name: namePool[k][0], Variant: 1})
-					sc.Pre = append(sc.Pre, preSpec{State: pSelfControlled, PkgRef: true})
+			rec.Eval()
+			sc := scenario{Flavour: fi, Control: false, Reject: -1, Secret: "ok", Limit: 1}
+			for _, k := range kinds {
+				sc.Objs = append(sc.Objs, objSpec{Kind: k, Name: namePool[k][0], Variant: 1})
+				sc.Pre = append(sc.Pre, preSpec{State: pSelfControlled, PkgRef: true})
+			}
+			msg, failed := try(func(fail func(string, ...any)) { runEstablishScenario(sc, rec, fail, false) })
+			switch {
+			case failed && isKnownClass(msg):
+				if known++; first == "" {
+					first = msg
 				}
-				runEstablishScenario(sc, rec, fatal(t), false)
-			})
+			case failed:
+				other = append(other, msg)
+			}
 		}
 	}
+	settle(t, rec, "Establish(control=false) of a revision that controls crossplane-<kind>-<package> looks for the webhook configuration under its static package name and stays its controller", known, first, other)
 }
 
 func (h *hworld) wipeStatus(rev string) {
@@ -60,8 +149,10 @@ func (h *hworld) wipeStatus(rev string) {
 	h.logf("status of %s lost", rev)
 }
 
-func pinnedWorld(t *testing.T, fl flavour) *hworld {
-	h := newHWorld(fl, fatal(t), 1, map[string]bool{"alpha": true, "beta": true})
+func pinnedWorld(t *testing.T, fl flavour) *hworld { return pinnedWorldF(fl, fatal(t)) }
+
+func pinnedWorldF(fl flavour, fail func(string, ...any)) *hworld {
+	h := newHWorld(fl, fail, 1, map[string]bool{"alpha": true, "beta": true})
 	if fl.Kind == "Configuration" {
 		h.addContent("alpha", "alpha-r1", []objSpec{{Kind: "XRD", Name: "xas.acme.example.org", Variant: 1}, {Kind: "Composition", Name: "comp-a", Variant: 1}, {Kind: "Composition", Name: "comp-b", Variant: 1}})
 		h.addContent("alpha", "alpha-r2", []objSpec{{Kind: "XRD", Name: "xas.acme.example.org", Variant: 2}, {Kind: "Composition", Name: "comp-a", Variant: 2}})
@@ -202,20 +293,21 @@ func lower(s string) string {
 // activated, so that its status already lists (not yet deployed) objects.
 func TestVerifC16PinnedDeactivationAfterPartialActivation(t *testing.T) {
 	rec := verifkit.New(t, "C16", "pinned rows")
+	known, first, other := 0, "", []string(nil)
 	for _, fl := range flavours {
-		t.Run(fl.Kind, func(t *testing.T) {
-			probe := pinnedWorld(t, fl)
-			probe.switchTo("alpha-r1")
-			_, _, run := probe.reconcile("alpha-r1", nil)
-			n := run.N
-			if n < 8 {
-				t.Fatalf("harness: the activating reconcile issued only %d calls", n)
-			}
-			for _, manual := range []bool{false, true} {
-				for k := -1; k < n; k++ {
-					for _, f := range faultKinds {
-						rec.Eval()
-						h := pinnedWorld(t, fl)
+		probe := pinnedWorld(t, fl)
+		probe.switchTo("alpha-r1")
+		_, _, run := probe.reconcile("alpha-r1", nil)
+		n := run.N
+		if n < 8 {
+			t.Fatalf("harness: the activating reconcile issued only %d calls", n)
+		}
+		for _, manual := range []bool{false, true} {
+			for k := -1; k < n; k++ {
+				for _, f := range faultKinds {
+					rec.Eval()
+					msg, failed := try(func(fail func(string, ...any)) {
+						h := pinnedWorldF(fl, fail)
 						if manual {
 							// revisionActivationPolicy Manual: the revision is reconciled while
 							// inactive first (its status then lists objects that are not deployed yet).
@@ -235,16 +327,24 @@ func TestVerifC16PinnedDeactivationAfterPartialActivation(t *testing.T) {
 						h.step(rec, "alpha-r1", nil)
 						h.step(rec, "alpha-r1", nil)
 						h.step(rec, "alpha-r2", nil)
-						for i, key := range h.planKeys(h.revs["alpha-r2"]) {
-							_ = i
+						for _, key := range h.planKeys(h.revs["alpha-r2"]) {
 							h.mustBe(key, "alpha-r2", "alpha")
 						}
-						if k < 0 {
-							break
+					})
+					switch {
+					case failed && isKnownClass(msg):
+						if known++; first == "" {
+							first = msg
 						}
+					case failed:
+						other = append(other, msg)
+					}
+					if k < 0 {
+						break
 					}
 				}
 			}
-		})
+		}
 	}
+	settle(t, rec, "a revision deactivated after a partial activation / lost status / manual activation (reconciler: Establish control=false or ReleaseObjects via stale status.objectRefs) never gives up control of the deployed webhook configuration", known, first, other)
 }
